@@ -1563,6 +1563,10 @@ class Exec(object):
             return
         run.probe('program-change:variables-intact')
         v = self.ev('FRE("")')
+        if v is None or int(v) < 0:
+            run.probe('abandon:program-left-no-memory')
+            self.stop = True
+            return
         sure, _, exact = m.live()
         if v is not None and exact:
             m.f0 = int(v) + m.records() + sure
@@ -1576,6 +1580,11 @@ class Exec(object):
         m, run = self.m, self.run
         if not m.prog:
             run.probe('skipped:prun:no-program')
+            return
+        bases = [e['b'] for e in m.prog.values() if e['k'] == 'base']
+        if m.base != (bases[0] if bases else 0):
+            # unspecified: what RUN does to an OPTION BASE that the program does not set itself
+            run.probe('skipped:prun:option-base-not-from-program')
             return
         ok, stop = model_run(m)
         if not ok:
@@ -2099,6 +2108,13 @@ class Exec(object):
         """Calibrate / check the empty-state free space after CLEAR."""
         m = self.m
         v = self.ev('FRE("")')
+        if plan.kind != 'clear' and (v is None or int(v) < 0):
+            # a stored program that has outgrown the data segment (PC-BASIC checks a new line against the
+            # memory limit without the lines behind it) is the business of the program properties, not of
+            # the variable memory: nothing more to learn from this session
+            self.run.probe('abandon:program-left-no-memory')
+            self.stop = True
+            return
         if v is None:
             # the empty string argument itself needs a byte free: legitimate with nothing left at all.
             # FRE(0) allocates nothing
